@@ -1597,6 +1597,37 @@ class Engine:
                 out.append((s2, v2))
         return out
 
+    def _table_of_nonempty_strings(self, x):
+        """x reads a string out of a table (`ops[i].name`, `names[i]`): a variable of this function or of the unit whose initializer lists
+        string literals that are all non-empty, and which no statement of the unit assigns to"""
+        n = x
+        while n.kind in ('MemberExpr', 'ArraySubscriptExpr', 'ImplicitCastExpr', 'ParenExpr') and n.inner:
+            n = n.inner[0]
+        if n is x or n.kind != 'DeclRefExpr' or n.ref_kind != 'VarDecl':
+            return False
+        decl = None
+        for d in self.fd.walk():
+            if d.kind == 'VarDecl' and d.id == n.ref_id:
+                decl = d
+        if decl is None:
+            g = self.u.globals.get(n.ref_name)
+            if g is not None and g.id == n.ref_id:
+                decl = g
+        if decl is None:
+            return False
+        lits = [y for y in decl.walk() if y.kind == 'StringLiteral']
+        if not lits or any(not (y.str_value() or '') for y in lits):
+            return False
+        for fd in self.u.functions.values():
+            for b in fd.walk():
+                if b.kind in ('BinaryOperator', 'CompoundAssignOperator') and (b.opcode or '').endswith('=') and b.opcode not in ('==', '!=', '<=', '>=') and b.inner:
+                    l = b.inner[0]
+                    while l.kind in ('MemberExpr', 'ArraySubscriptExpr', 'ImplicitCastExpr', 'ParenExpr') and l.inner:
+                        l = l.inner[0]
+                    if l.kind == 'DeclRefExpr' and l.ref_id == n.ref_id:
+                        return False
+        return True
+
     def refine_len_predicate(self, c, args, vals, res):
         """c(tok, "lit") is true only for a token whose length is strlen(lit): with a non-empty literal the token is not the
         end marker (whose length is 0, checked by the rule module).  Splits an unknown outcome."""
@@ -1608,6 +1639,8 @@ class Engine:
             x = args[si].strip_all()
             if x.kind == 'DeclRefExpr' and x.ref_kind == 'ParmVarDecl' and (self.fname, self.param_idx.get(x.ref_id)) in self.W.nonempty_strs:
                 lit = '?'          # every caller passes a non-empty literal
+            elif self._table_of_nonempty_strings(x):
+                lit = '?'          # an entry of a table that holds non-empty string literals only and is never written
         rec = rec_of(pointee(args[ti].type or ''))
         em = self.W.end_marker.get(rec)
         if not lit or em is None:
